@@ -52,25 +52,31 @@ def mk (st : St) (d : Int) (v : Option IntSet) : Step :=
 
 def getI (st : St) (r : Int) : Option IntSet := (reg r).bind st.get
 
+/-- single-register ops go through `IntSet.stepOp` — the function the refinement theorem of Props/C19 is about -/
+def viaStep (st : St) (r : Int) (op : SetOp) : Step :=
+  match reg r with
+  | none => .bad
+  | some r => match st.get r with
+    | none => .fail
+    | some s => match s.stepOp op with
+      | none => .fail
+      | some (s', .none) => .ok (st.put r s')
+      | some (s', .popped k) => .ok ((st.put r s').obs (toString k))
+      | some (s', .keyError) => .ok ((st.put r s').obs "KeyError")
+
 def step (st : St) (op : String) (xs : List Int) : Step :=
   match op, xs with
   | "new", [r] => mk st r (some empty)
-  | "add", [r, k] => upd st r (·.add k)
-  | "discard", [r, k] => upd st r (fun s => (s.discard k).map (·.1))
+  | "add", [r, k] => viaStep st r (.add k)
+  | "discard", [r, k] => viaStep st r (.discard k)
   | "remove", [r, k] =>
     match getI st r with
     | none => .fail
     | some s => match s.discard k with
       | none => .fail
       | some (s', found) => .ok ((st.put r.toNat s').obs (if found then "ok" else "KeyError"))
-  | "pop", [r] =>
-    match getI st r with
-    | none => .fail
-    | some s => match s.pop with
-      | none => .fail
-      | some .keyError => .ok (st.obs "KeyError")
-      | some (.popped k s') => .ok ((st.put r.toNat s').obs (toString k))
-  | "clear", [r] => upd st r (fun s => some s.clear)
+  | "pop", [r] => viaStep st r .pop
+  | "clear", [r] => viaStep st r .clear
   | "has", [r, k] =>
     match getI st r with
     | none => .fail
@@ -85,14 +91,14 @@ def step (st : St) (op : String) (xs : List Int) : Step :=
     match getI st r with
     | none => .fail
     | some s => .ok (st.obs s!"mask={s.mask} used={s.used}")
-  | "updl", r :: ks => upd st r (·.updateIter ks)
-  | "updd", r :: ks => upd st r (·.updateDict ks)
+  | "updl", r :: ks => viaStep st r (.updateIter ks)
+  | "updd", r :: ks => viaStep st r (.updateDict ks)
   | "upds", [r, q] =>
     match getI st q with
     | none => .fail
     | some o => if r = q then .ok st else upd st r (·.merge o)
   | "copy", [r, q] => mk st r ((getI st q).bind (·.copy))
-  | "dupl", r :: ks => upd st r (·.differenceUpdate ks)
+  | "dupl", r :: ks => viaStep st r (.differenceUpdate ks)
   | "dups", [r, q] =>
     match getI st q with
     | none => .fail
